@@ -47,13 +47,15 @@ _HASH_REGEXES = {
     Hash.SHA3512: r"^[a-f0-9]{128}\Z",
     Hash.SSDEEP: r"^[a-z0-9/+:.]{1,128}\Z",
     Hash.WHIRLPOOL: r"^[a-f0-9]{128}\Z",
-    Hash.TLSH: r"^[a-f0-9]{70}\Z",
+    # (70 hex digits; since TLSH 4.0 preceded by the version tag "T1")
+    Hash.TLSH: r"^(?:t1)?[a-f0-9]{70}\Z",
 }
 
 
-# compile all the regexes; be case-insensitive
+# compile all the regexes; be case-insensitive (for ASCII letters only: other
+# characters which fold to them, e.g. the Kelvin sign, are not hex digits)
 for hash_, re_str in _HASH_REGEXES.items():
-    _HASH_REGEXES[hash_] = re.compile(re_str, re.I)
+    _HASH_REGEXES[hash_] = re.compile(re_str, re.I | re.A)
 
 
 def infer_hash_algorithm(name):
